@@ -12,6 +12,7 @@ package c01
 import (
 	"bytes"
 	"fmt"
+	"net"
 	"sort"
 
 	"github.com/insomniacslk/dhcp/dhcpv4"
@@ -58,7 +59,12 @@ func editsFor(codes []uint8, lens map[uint8]int) []v4edit {
 			},
 			func(m *v4ref.Packet) { m.Opts[200] = []byte{1, 2, 3} }},
 		v4edit{"YourIPAddr[3] ^= 1 (in place)",
-			func(q *dhcpv4.DHCPv4) { q.YourIPAddr[len(q.YourIPAddr)-1] ^= 1 },
+			func(q *dhcpv4.DHCPv4) {
+				if fw.StdShared(q.YourIPAddr) { // a shared standard address value: replace, do not write into it
+					q.YourIPAddr = append(net.IP(nil), q.YourIPAddr...)
+				}
+				q.YourIPAddr[len(q.YourIPAddr)-1] ^= 1
+			},
 			func(m *v4ref.Packet) { m.YIAddr[3] ^= 1 }},
 		v4edit{"ClientHWAddr[0] ^= 1 (in place)",
 			func(q *dhcpv4.DHCPv4) { q.ClientHWAddr[0] ^= 1 },
